@@ -553,6 +553,15 @@ CMP = {"==": "=", "!=": "≠", "<": "<", ">": ">", "<=": "≤", ">=": "≥"}
 ARITH = {"+": "+", "-": "-", "*": "*", "/": "/", "%": "%", "&": "&&&", "|": "|||", "^": "^^^", "<<": "<<<", ">>": ">>>"}
 
 
+LEAN_RESERVED = {"at", "from", "end", "in", "do", "then", "else", "fun", "open", "show", "have", "where", "with", "by", "local",
+                 "instance", "variable", "example", "theorem", "def", "match", "if", "let", "for", "return", "import", "namespace",
+                 "section", "using", "calc", "suffices", "obtain", "exists", "forall", "Type", "Prop", "Sort", "deriving", "mutual"}
+
+
+def ident(name):
+    return name + "_" if name in LEAN_RESERVED else name
+
+
 class Emitter:
     """
     exprs : list of (rust template, lean template)      pure expressions
@@ -583,7 +592,7 @@ class Emitter:
         def rep(m):
             q = b[m.group(0)]
             if isinstance(q, tuple) and q and q[0] == "pbind":
-                return q[1]
+                return ident(q[1])
             return self.tx(q, "v")
         return re.sub(r"\$[A-Za-z_][A-Za-z0-9_]*", rep, tmpl)
 
@@ -603,7 +612,7 @@ class Emitter:
             if e[1] == "None":
                 return "none"
             if e[1] in self.locals:
-                return e[1]
+                return ident(e[1])
             raise XlateError(f"unknown name {e[1]}")
         if k == "call" and e[1] == ("path", "Some") and len(e[2]) == 1:
             return f"(some {self.tx(e[2][0])})"
@@ -651,7 +660,7 @@ class Emitter:
             return "_"
         if k == "pbind":
             self.locals.add(p[1])
-            return p[1]
+            return ident(p[1])
         if k == "pctor" and p[1] == "Some" and len(p[2]) == 1:
             return f"some {self.pat(p[2][0])}"
         if k == "ppath" and p[1] == "None":
